@@ -105,6 +105,9 @@ def r1(ctx):
             continue
         if ev.target[1] in allowed:
             continue
+        if fi.name == '__deepcopy__' and ev.func == fi.qualname and len(fi.node.args.args) == 2 \
+                and ev.target[1] in (1, fi.node.args.args[1].arg):
+            continue        # the memo dictionary of the copy protocol is there to be written (memo[id(self)] = result)
         # self-stores inside selector callbacks etc. reached through an allowed entry are allowed;
         if (ev.func, ' '.join(ev.stmt.split())) in REVIEWED or \
                 (ev.func.split(':')[0], ' '.join(ev.stmt.split())) in REVIEWED_IN_MODULE:
@@ -586,10 +589,34 @@ class _Shared:
     way out; dict(x), x.copy(), RegionMeta(x) and friends copy the container and keep the members; calls of anything else
     are taken to build fresh objects."""
 
-    def __init__(self, m, fi, tainted):
+    def __init__(self, m, fi, tainted, depth=0):
         self.m, self.fi, self.t = m, fi, set(tainted)
+        self.depth = depth
         self.returns = []       # return statements handing out a shared object
         self.stores = []        # (statement, target text) attribute stores of a shared object
+
+    def callee(self, call):
+        """(sub-analysis, {callee parameter: caller argument expression}) for a call of a function of the same module whose
+        arguments hold shared objects; None otherwise"""
+        if self.depth >= 2:
+            return None
+        try:
+            gs = self.m.resolve_call(self.fi, call) or ()
+        except Exception:
+            gs = ()
+        gs = [g for g in gs if g.cls is None and g.module == self.fi.module and g.qualname != self.fi.qualname]
+        if len(gs) != 1:
+            return None
+        g = gs[0]
+        params = [a.arg for a in g.node.args.args]
+        bind = dict(zip(params, call.args))
+        bind.update({k.arg: k.value for k in call.keywords if k.arg in params})
+        tainted = {p_ for p_, a in bind.items() if self.expr(a)}
+        if not tainted:
+            return None
+        sub = _Shared(self.m, g, tainted, self.depth + 1)
+        sub.block(g.node.body)
+        return sub, bind
 
     def expr(self, e):
         if e is None:
@@ -622,10 +649,14 @@ class _Shared:
                 r = self.m.resolve_name(self.fi.module, nm) if nm and '.' not in nm else (None,)
                 if r and r[0] == 'class':
                     return True
+                # a function of the module: what it returns may hold what it was given
+                sub = self.callee(e)
+                if sub is not None and sub[0].returns:
+                    return True
             return False
         return False
 
-    def block(self, body):
+    def block(self, body, cond=False):
         for st in body:
             if isinstance(st, (ast.Assign, ast.AnnAssign, ast.AugAssign)):
                 val = st.value
@@ -636,38 +667,54 @@ class _Shared:
                         if isinstance(x, ast.Name):
                             if tv:
                                 self.t.add(x.id)
+                            elif not cond and isinstance(st, ast.Assign):
+                                self.t.discard(x.id)      # re-bound, on every path through this block, to a fresh object
                         elif isinstance(x, ast.Subscript) and tv:
                             if isinstance(x.value, ast.Name):
                                 self.t.add(x.value.id)
                         elif isinstance(x, ast.Attribute) and tv:
                             self.stores.append((st, ast.unparse(x)))
+            elif isinstance(st, ast.Expr) and isinstance(st.value, ast.Call) and self.callee(st.value) is not None:
+                sub, bind = self.callee(st.value)
+                for sst, tgt in sub.stores:
+                    root = tgt.split('.')[0]
+                    if root in bind and isinstance(bind[root], ast.Name):
+                        self.stores.append((st, bind[root].id + tgt[len(root):]))
             elif isinstance(st, ast.Expr) and isinstance(st.value, ast.Call):
                 c = st.value
                 if isinstance(c.func, ast.Attribute) and c.func.attr in ABSORBING and isinstance(c.func.value, ast.Name) \
                         and any(self.expr(a) for a in list(c.args) + [k.value for k in c.keywords]):
-                    self.t.add(c.func.value.id)
+                    if c.func.value.id in ('dict', 'list', 'object', 'set') and c.args and isinstance(c.args[0], ast.Name):
+                        if any(self.expr(a) for a in c.args[1:]):
+                            self.t.add(c.args[0].id)        # dict.__setitem__(x, k, v): x absorbs
+                    else:
+                        self.t.add(c.func.value.id)
             elif isinstance(st, ast.Return):
                 if self.expr(st.value):
                     self.returns.append(st)
             elif isinstance(st, (ast.For, ast.AsyncFor)):
                 if self.expr(st.iter):
-                    for x in ast.walk(st.target):
-                        if isinstance(x, ast.Name):
-                            self.t.add(x.id)
+                    names = [x for x in ast.walk(st.target) if isinstance(x, ast.Name)]
+                    # `for key, value in d.items()`: the keys of a dictionary are hashable, i.e. not changeable in place
+                    if isinstance(st.iter, ast.Call) and isinstance(st.iter.func, ast.Attribute) and st.iter.func.attr == 'items' \
+                            and isinstance(st.target, ast.Tuple) and len(st.target.elts) == 2 and isinstance(st.target.elts[0], ast.Name):
+                        names = [x for x in names if x is not st.target.elts[0]]
+                    for x in names:
+                        self.t.add(x.id)
                 for _ in range(2):
-                    self.block(st.body)
-                self.block(st.orelse)
+                    self.block(st.body, cond)
+                self.block(st.orelse, True)
             elif isinstance(st, (ast.If, ast.While)):
-                self.block(st.body)
-                self.block(st.orelse)
+                self.block(st.body, True)
+                self.block(st.orelse, True)
             elif isinstance(st, ast.With):
-                self.block(st.body)
+                self.block(st.body, cond)
             elif isinstance(st, ast.Try):
-                self.block(st.body)
+                self.block(st.body, True)
                 for h in st.handlers:
-                    self.block(h.body)
-                self.block(st.orelse)
-                self.block(st.finalbody)
+                    self.block(h.body, True)
+                self.block(st.orelse, True)
+                self.block(st.finalbody, cond)
 
 
 def _loop_carried(fn):
@@ -742,6 +789,10 @@ def shared_between_results(ctx, entries):
                         for t in st.targets if isinstance(t, ast.Name)}
                 stores = [st for st in ast.walk(lp) if isinstance(st, ast.Assign) and any(
                     isinstance(t, ast.Attribute) and isinstance(t.value, ast.Name) and t.value.id in made for t in st.targets)]
+                # ... or hands the object it made, together with other objects, to a function of the module that stores them
+                stores += [st for st in ast.walk(lp) if isinstance(st, ast.Expr) and isinstance(st.value, ast.Call)
+                           and any(isinstance(a, ast.Name) and a.id in made for a in st.value.args)
+                           and any(h.cls is None and h.module == g.module for h in (m.resolve_call(g, st.value) or ()))]
                 if not stores:
                     continue
                 bound_in = {t.id for st in ast.walk(lp) if isinstance(st, (ast.Assign, ast.For))
@@ -759,8 +810,7 @@ def shared_between_results(ctx, entries):
                 an = _Shared(m, g, outer)
                 an.block(lp.body)
                 n += 1
-                bad = [s_ for s_ in an.stores if any(isinstance(t, ast.Attribute) and isinstance(t.value, ast.Name)
-                                                     and t.value.id in made for t in (s_[0].targets if isinstance(s_[0], ast.Assign) else []))]
+                bad = [s_ for s_ in an.stores if s_[1].split('.')[0] in made]
                 if bad:
                     ctx.bad(f'{g.name}', 'shared-between-results',
                             f'{g.name} builds one result per iteration and stores `{norm(bad[0][0])[:70]}`: the value is (or holds the '
